@@ -21,6 +21,7 @@ mod c03;
 mod c01;
 mod c20;
 mod c15;
+mod c17;
 // MODULES-END
 
 fn dump_file(path: &str) -> String {
@@ -66,6 +67,7 @@ fn main() {
         || c01::dispatch(op, &rest)
         || c20::dispatch(op, &rest)
         || c15::dispatch(op, &rest)
+        || c17::dispatch(op, &rest)
         // DISPATCH-END
         ;
     if !handled {
